@@ -119,6 +119,7 @@ type Run struct {
 	Crash    string        // VERIF_CRASH value ("" = none)
 	KillAt   time.Duration // external SIGKILL after this delay (0 = none)
 	HitLog   bool
+	CkptMs   int // > 0: the store checkpoints its WAL every CkptMs milliseconds (hook VERIF_SQLITE_CHECKPOINT_MS)
 	ports    ports
 	cmd      *exec.Cmd
 	exited   chan struct{}
@@ -145,8 +146,11 @@ func (r *Run) emit(ev map[string]any) { r.events = append(r.events, ev) }
 func (r *Run) start(crash string) error {
 	cmd := exec.Command(r.Bin, "run", "--config", filepath.Join(r.Dir, "Hookaidofile"), "--db", filepath.Join(r.Dir, "q.db"), "--log-level", "error")
 	cmd.Env = append(os.Environ(), "VERIF_CRASH="+crash)
-	if r.HitLog {
+	if r.HitLog || r.CkptMs > 0 {
 		cmd.Env = append(cmd.Env, "VERIF_HITLOG="+filepath.Join(r.Dir, "hits.log"))
+	}
+	if r.CkptMs > 0 {
+		cmd.Env = append(cmd.Env, fmt.Sprintf("VERIF_SQLITE_CHECKPOINT_MS=%d", r.CkptMs))
 	}
 	logf, _ := os.OpenFile(filepath.Join(r.Dir, "run.log"), os.O_CREATE|os.O_WRONLY|os.O_APPEND, 0o644)
 	cmd.Stdout, cmd.Stderr = logf, logf
@@ -398,7 +402,12 @@ func (r *Run) Execute() ([]map[string]any, error) {
 	}
 	crashed := !r.alive()
 	r.kill()
-	r.emit(map[string]any{"ev": "Crash", "self": crashed})
+	crashEv := map[string]any{"ev": "Crash", "self": crashed}
+	if r.CkptMs > 0 {
+		h := Hits(r.Dir)
+		crashEv["ckpt_begun"], crashEv["ckpt_done"] = h["sqlite.checkpoint"], h["sqlite.checkpoint.done"]
+	}
+	r.emit(crashEv)
 
 	// what is in the file: open it with the store's own open path
 	rows := map[string]any{}
